@@ -208,3 +208,19 @@ fn auto_never_is_strip_stream() {
     assert!(m.locks == 1, "every Write method of AutoStream acquires the inner lock exactly once");
     assert!(m.flushes == if which == 3 { 1 } else { 0 }, "flush reaches the inner writer exactly when asked");
 }
+
+// ---- C19 (sequential lock discipline): one formatted write = one lock acquisition ----
+
+/// StripStream / AutoStream::write_fmt with a literal-only format string (formatting *arguments*
+/// pull in core::fmt's padding machinery, which CBMC does not finish): all fragments are written
+/// through a single acquisition of the inner lock
+#[cfg_attr(kani, kani::proof, kani::unwind(12))]
+fn lock_write_fmt_once() {
+    let strip = vk::any_bool();
+    let mut s = if strip { AutoStream::never(Mock::new(0)) } else { AutoStream::always_ansi(Mock::new(0)) };
+    let r = s.write_fmt(format_args!("ab\n"));
+    assert!(r.is_ok(), "a formatted write succeeds on a good writer");
+    let m = s.into_inner();
+    assert!(m.locks == 1, "one formatted write acquires the inner lock exactly once");
+    assert!(m.len == 3 && m.log[0] == b'a' && m.log[1] == b'b' && m.log[2] == b'\n', "the formatted text is delivered");
+}
